@@ -466,6 +466,23 @@ theorem calcDeltas_some {cfg : Cfg} {serial : Nat} {ds r : List DeltaEntry} {st 
             omega
         · simp [h3] at h
 
+/-- `check_deltas` looks at **every** listed delta whose serial the state remembers, wherever it
+stands in the list: the guard fires iff some listed entry's hash differs from the remembered one. -/
+theorem deltaMutation_iff (ds : List DeltaEntry) (st : RState) :
+    deltaMutation ds st = true ↔
+      ∃ e ∈ ds, ∃ h, List.lookup e.serial st.deltaState = some h ∧ h ≠ e.hash := by
+  unfold deltaMutation
+  rw [List.any_eq_true]
+  constructor
+  · rintro ⟨e, he, hm⟩
+    cases hl : List.lookup e.serial st.deltaState with
+    | none => simp [hl] at hm
+    | some h =>
+      simp only [hl, bne_iff_ne, ne_eq] at hm
+      exact ⟨e, he, h, hl, hm⟩
+  · rintro ⟨e, he, h, hl, hne⟩
+    exact ⟨e, he, by simp [hl, hne]⟩
+
 /-- What a completed delta update did. -/
 theorem deltaUpdate_done {cfg : Cfg} {now draw : Nat} {etag lm : Option Nat} {n : Notif}
     {fs : Files} {l l' : Local} {tr : List Nat}
@@ -473,7 +490,8 @@ theorem deltaUpdate_done {cfg : Cfg} {now draw : Nat} {etag lm : Option Nat} {n 
     ∃ ds, calcDeltas cfg n.serial (effDeltas cfg n) l.state = some ds ∧
       n.session = l.state.session ∧
       runDeltas l.objs n.session fs ds = (l'.objs, true, tr) ∧
-      l'.state = newState cfg now draw etag lm n := by
+      l'.state = newState cfg now draw etag lm n ∧
+      deltaMutation (effDeltas cfg n) l.state = false := by
   unfold deltaUpdate at hd
   by_cases h1 : oversized cfg n = true
   · simp [h1] at hd
@@ -498,7 +516,7 @@ theorem deltaUpdate_done {cfg : Cfg} {now draw : Nat} {etag lm : Option Nat} {n 
               simp at hd
               obtain ⟨hl, htr⟩ := hd
               subst hl; subst htr
-              refine ⟨ds, rfl, ?_, hr, rfl⟩
+              refine ⟨ds, rfl, ?_, hr, rfl, by simpa using h2⟩
               simpa using h3
 
 /-! ## Snapshot and the update as a whole -/
@@ -628,7 +646,7 @@ theorem deltaUpdate_clean {h : History} {cfg : Cfg} (hgap : cfg.gapCheck = true)
     {tr : List Nat} (hc : Clean h l) (hh : Honest h n fs)
     (hd : deltaUpdate cfg now draw etag lm n fs l = .done l' tr) :
     Clean h l' ∧ l'.state.session = n.session ∧ l'.state.serial = n.serial := by
-  obtain ⟨ds, hcalc, hsess, hrun, hst⟩ := deltaUpdate_done hd
+  obtain ⟨ds, hcalc, hsess, hrun, hst, _⟩ := deltaUpdate_done hd
   obtain ⟨hmem, hchain, hlen⟩ := calcDeltas_some hgap hcalc
   obtain ⟨x, hx, hsame⟩ := hc
   rw [← hsess] at hx
@@ -891,7 +909,7 @@ theorem deltaUpdate_dirty {h : History} {cfg : Cfg} (hgap : cfg.gapCheck = true)
     (hh : Honest h n fs)
     (hd : deltaUpdate cfg now draw etag lm n fs l = .done l' tr) :
     Clean h l' ∧ l'.state.session = n.session ∧ l'.state.serial = n.serial := by
-  obtain ⟨ds, hcalc, hsess, hrun, hst⟩ := deltaUpdate_done hd
+  obtain ⟨ds, hcalc, hsess, hrun, hst, _⟩ := deltaUpdate_done hd
   obtain ⟨hmem, hchain, hlen⟩ := calcDeltas_some hgap hcalc
   rw [← hsess] at hx
   obtain ⟨x', hx', hsame'⟩ := runDeltas_genuine h n.session fs ds l.objs l.state.serial x l'.objs tr
